@@ -54,6 +54,8 @@ Report(name, ok) == ok \/ PrintT(<<"REPORT", name, scn, l - 1, {}>>)
 Verdict_C01 == Report("Inv_C01a", Inv_C01a(o)) /\ Report("Inv_C01b", Inv_C01b(o))
                /\ Report("Inv_C01c", Inv_C01c(o)) /\ Report("Inv_C01d", Inv_C01d(o))
                /\ Report("Inv_C01e", Inv_C01e(o))
+               \* "discarded without disturbing any other call": whatever the peer sends, the dispatch and the calls do not panic
+               /\ Report("Inv_C01f", ~o.panic)
 Verdict_C02 == Report("Inv_C02a", Inv_C02a(o)) /\ Report("Inv_C02b", Inv_C02b(o)) /\ Report("Inv_C02c", Inv_C02c(o))
                /\ Report("Inv_C02d", Inv_C02d(o)) /\ Report("Inv_C02e", Inv_C02e(o))
 Verdict_C03 == Report("Inv_C03a", Inv_C03a(o)) /\ Report("Inv_C03b", Inv_C03b(o))
